@@ -937,10 +937,43 @@ func hsDataCheck(p hsPath, comm *pathComm, srv *sdns.ServerDnsListener, client *
 		s = append(s, f, f+1, 3*f)
 		return s
 	}
-	kinds := []byte{'s', 'r', 'x'}
+	// every small remainder after one and after two full fragments (a chunker that treats a short tail specially, a
+	// header reserve that is off by a few bytes), the last byte before a boundary, and one random size
+	extra := func(f int) []int {
+		var s []int
+		for d := 2; d <= 12; d++ {
+			s = append(s, f+d)
+		}
+		if f > 1 {
+			s = append(s, 2*f-1)
+		}
+		for d := 0; d <= 9; d++ {
+			s = append(s, 2*f+d)
+		}
+		s = append(s, 3*f+5, 1+int((p.seed*2654435761)%uint64(4*f)))
+		return s
+	}
+	allKinds := []byte{'s', 'r', 'x'}
+	type szk struct {
+		n int
+		k byte
+	}
+	plan := func(f int) []szk {
+		var out []szk
+		for _, n := range sizes(f) {
+			for _, k := range allKinds {
+				out = append(out, szk{n, k})
+			}
+		}
+		for i, n := range extra(f) {
+			out = append(out, szk{n, allKinds[i%3]})
+		}
+		return out
+	}
 	// upstream: client -> server
-	for _, n := range sizes(uf) {
-		for _, k := range kinds {
+	for _, nk := range plan(uf) {
+		{
+			n, k := nk.n, nk.k
 			data := hsPayload(k, n, p.seed+uint64(n))
 			var werr error
 			var wn int
@@ -967,8 +1000,9 @@ func hsDataCheck(p hsPath, comm *pathComm, srv *sdns.ServerDnsListener, client *
 		}
 	}
 	// downstream: server -> client (the client polls)
-	for _, n := range sizes(df) {
-		for _, k := range kinds {
+	for _, nk := range plan(df) {
+		{
+			n, k := nk.n, nk.k
 			data := hsPayload(k, n, p.seed+uint64(n)+7)
 			sdns.VerifUserSetDeadlines(sc, time.Now().Add(dataPerOp))
 			wdone := make(chan error, 1)
